@@ -844,4 +844,99 @@ theorem signExtend_spec (x : Int) (n : Int) (hn : 1 ≤ n) (h0 : 0 ≤ x) (hx : 
     congr 1; omega
 
 
+
+/-! ## packByte / unpackByte -/
+
+
+/-- the widths of a `packByte` format as `packify` widths -/
+def widths (fmt : List Nat) : List Int := fmt.map (fun (w : Nat) => (w : Int))
+
+theorem packBits_nat (w : Nat) (f : Int) :
+    packBits (w : Int) f
+      = .ok (if w = 1 then (if f ≠ 0 then 1 else 0) else (f % 2 ^ w).toNat) := by
+  unfold packBits
+  by_cases h1 : w = 1
+  · subst h1; simp
+  · have h2 : ¬ ((w : Int) = 1) := by omega
+    have h3 : ¬ ((w : Int) < 0) := by omega
+    simp [h1, h2, h3]
+
+/-- `packByte`'s loop is `packify`'s loop on the same widths (plus its own range checks) -/
+theorem packByteLoop_sim : ∀ (fmt : List Nat) (fs : List Int) (n bfp r : Nat),
+    packByteLoop fmt fs n bfp = .ok r →
+    (∀ w ∈ fmt, 0 < w ∧ w ≤ 8) ∧
+    ∃ bfp', packLoop (widths fmt) fs n bfp = .ok (r, bfp')
+  | [], fs, n, bfp, r, h => by
+    simp only [packByteLoop] at h; injection h with h; subst h
+    exact ⟨by simp, bfp, by simp [widths, packLoop]⟩
+  | w :: fmt, fs, n, bfp, r, h => by
+    simp only [packByteLoop] at h
+    split at h
+    · cases h
+    · next hr =>
+      split at h
+      · cases h
+      · next hb =>
+        cases fs with
+        | nil => cases h
+        | cons f fs =>
+          simp only [] at h
+          obtain ⟨ih1, bfp', ih2⟩ := packByteLoop_sim fmt fs _ _ r h
+          have hr' : 0 < w ∧ w ≤ 8 := by
+            simp only [Decidable.not_not] at hr; exact hr
+          refine ⟨?_, bfp', ?_⟩
+          · intro v hv
+            rcases List.mem_cons.1 hv with rfl | hv
+            · exact hr'
+            · exact ih1 v hv
+          · simp only [widths, List.map_cons]
+            rw [packLoop, packBits_nat]
+            simp only [Int.toNat_natCast]
+            have : ¬ bfp < w := hb
+            simp only [this, if_false]
+            exact ih2
+
+theorem unpackByteLoop_sim (m : Nat) (boolean : Bool) : ∀ (fmt : List Nat) (bfp : Nat) (fs : List Fld) (bfp' : Nat),
+    (∀ w ∈ fmt, 0 < w ∧ w ≤ 8) →
+    unpackLoop m boolean (widths fmt) bfp = .ok (fs, bfp') →
+    unpackByteLoop m boolean fmt bfp = .ok fs
+  | [], bfp, fs, bfp', _, h => by
+    simp only [widths, List.map_nil, unpackLoop] at h
+    injection h with h; injection h with h1 h2; subst h1
+    simp [unpackByteLoop]
+  | w :: fmt, bfp, fs, bfp', hw, h => by
+    have hw0 := hw w (by simp)
+    simp only [widths, List.map_cons] at h
+    rw [unpackLoop] at h
+    have h1 : ¬ ((w : Int) < 0) := by omega
+    simp only [h1, if_false, Int.toNat_natCast] at h
+    split at h
+    · cases h
+    · next hb =>
+      split at h
+      · cases h
+      · next fs1 bfp1 hrec =>
+        injection h with h; injection h with h2 h3; subst h2
+        rw [unpackByteLoop]
+        have hc : ¬ ¬ (0 < w ∧ w ≤ 8) := by simp [hw0]
+        simp only [hc, if_false, hb]
+        rw [unpackByteLoop_sim m boolean fmt _ fs1 bfp1 (fun v hv => hw v (by simp [hv])) hrec]
+
+/-- **packByte / unpackByte round trip** -/
+theorem unpackByte_packByte (fmt : List Nat) (fields : List Int) (boolean : Bool) (b : Nat)
+    (h : packByte fmt fields = .ok b) :
+    b < 256 ∧ unpackByte fmt (b : Int) boolean
+      = .ok (specFields boolean (widths fmt) fields) := by
+  unfold packByte at h
+  obtain ⟨hw, bfp', hp⟩ := packByteLoop_sim fmt fields 0 8 b h
+  obtain ⟨_, _, f3, _⟩ := packLoop_frame _ fields 0 8 (b, bfp') hp
+  have hb : b < 2 ^ 8 := lt_of_high_clear (fun j hj => by rw [f3 j hj]; simp)
+  have hu := unpackLoop_packLoop boolean _ fields 0 8 (b, bfp') hp (lowClear_zero _)
+  refine ⟨hb, ?_⟩
+  unfold unpackByte
+  have : ((b : Int) % 256).toNat = b := by omega
+  rw [this]
+  exact unpackByteLoop_sim b boolean fmt 8 _ bfp' hw hu
+
+
 end Ioflo.Bits
